@@ -4,12 +4,14 @@
 -/
 import RosuModel.Model.Cmds.Frame
 import RosuModel.Model.Cmds.Codec
+import RosuModel.Model.Cmds.Curve
 namespace Rosu
 
 def dispatch (toks : List String) : String :=
   ((none : Option String)
     |>.orElse (fun _ => dispatchFrame toks)
     |>.orElse (fun _ => dispatchCodec toks)
+    |>.orElse (fun _ => dispatchCurve toks)
     ).getD "bad-request"
 
 end Rosu
